@@ -116,7 +116,7 @@ LoginEvents ==
       b \in Browsers, p \in {"u1", "u2", "g1"}, w \in {1, 2, -1}, r \in BOOLEAN }
 
 ProbeLogout(c) ==
-  { [Ev("Probe", b) EXCEPT !.k = k] : b \in Browsers, k \in {NONE, "alt1"} } \cup
+  { [Ev("Probe", b) EXCEPT !.k = k] : b \in Browsers, k \in {NONE, "alt1", "bare"} } \cup
   { [Ev("Logout", b) EXCEPT !.method = m] : b \in Browsers, m \in {c.logoutMethod, "GET"} }
 
 Ticks(ds) == { [Ev("Tick", NONE) EXCEPT !.d = d] : d \in ds }
